@@ -41,6 +41,11 @@ MUTANTS = [
     ("C15", "DistributeLinks", "graph_operations/multiplication.py", "      to_keep = links_signatures[i:i+diff+1]", "      to_keep = links_signatures[i+1:i+diff+1]"),
     ("C15", "DistributeLinks", "graph_operations/multiplication.py", "    if factor < 2:\n      return\n    end_type", "    if factor < 3:\n      return\n    end_type"),
     ("C13", "AddLineUnknownVersion", "lines/creators.py", '      self._check_version_allowed_by_dialect(gfa_line.version)\n', ''),
+    ("C10", "ConversionRestores_to_gfa2_s", "gfa.py", '        return "\\n".join(lines)\n      finally:\n        self._take_back_assigned_ids(*unnamed)', '        self._take_back_assigned_ids(*unnamed)\n        return "\\n".join(lines)\n      finally:\n        pass'),
+    ("C10", "ConversionRestores_to_gfa2", "gfa.py", "          gfa2.add_line(line.to_gfa2(raise_on_failure=False))\n      finally:\n        self._take_back_assigned_ids(*unnamed)", "          gfa2.add_line(line.to_gfa2(raise_on_failure=False))\n      finally:\n        self._take_back_assigned_ids(unnamed[0], self._max_int_name, unnamed[2])"),
+    ("C10", "TakeBackAssignedIds", "gfa.py", "    self._max_int_name = max_int_name", "    pass"),
+    ("C10", "TakeBackAssignedIds", "gfa.py", "    for rt in records:\n      self._records[rt] = records[rt]", "    for rt in records:\n      self._records[rt] = records[\"L\"]"),
+    ("C10", "TakeBackAssignedIds", "gfa.py", '      if l.is_connected() and l.get("ID") is not None:', '      if l.get("ID") is not None:'),
     ("C18", "SetField", "line/common/field_data.py", "        if self.vlevel >= 3:\n          gfapy.Field._validate_gfa_field(value, datatype, fieldname)\n        self._datatype[fieldname] = datatype", "        self._datatype[fieldname] = datatype"),
     ("C17", "FindEdgeFromPathToSegment", "line/group/ordered/captured_path.py", "      if any(e.line is edge for e in edges):\n        # (an edge of the segment with itself is listed once per end)\n        continue\n", ""),
     ("C17", "FindEdgeFromPathToSegment", "line/group/ordered/captured_path.py", "    elif len(edges) > 1:\n      raise gfapy.NotUniqueError(", "    elif len(edges) > 2:\n      raise gfapy.NotUniqueError("),
